@@ -102,17 +102,28 @@ The output format is the same than input format.
 				}
 			} else if maskpos != "" {
 				var positions []string
-				var p string
 				var posint int64
 				positions = strings.Split(maskpos, ",")
-				for _, p = range positions {
+				// Positions given on the reference are converted to alignment coordinates
+				// before anything is masked: masking may put gaps into the reference itself,
+				// which would shift the positions converted afterwards
+				starts := make([]int, len(positions))
+				for i, p := range positions {
 					if posint, err = strconv.ParseInt(p, 10, 32); err != nil {
 						io.LogError(err)
 						return
 					}
-					start := int(posint)
+					starts[i] = int(posint)
+					if refseq {
+						if starts[i], _, err = al.RefCoordinates(maskrefseq, starts[i], 1); err != nil {
+							io.LogError(err)
+							return
+						}
+					}
+				}
+				for _, start := range starts {
 					length := 1
-					if err = mask(al, start, length, refseq, maskrefseq, maskreplace, masknogap, masknoref); err != nil {
+					if err = mask(al, start, length, false, maskrefseq, maskreplace, masknogap, masknoref); err != nil {
 						io.LogError(err)
 						return
 					}
